@@ -299,6 +299,22 @@ func stEntries(rng *rand.Rand, nEach int) (rs []stReadEntry, ws []stWriteEntry) 
 		var gv any
 		nbt.Unmarshal(nbtDocBytes("file", nil, tree), &gv)
 		ws = append(ws, stWriteEntry{Name: "nbt Encoder.Encode", Run: func(w io.Writer) error { return nbt.NewEncoder(w).Encode(gv, "root") }})
+		// the same document as a packet field (pk.NBT counts the bytes it consumed), alone and inside a Tuple
+		netIn := append(nbtDocBytes("network", nil, tree), 7, 7)
+		rs = append(rs, stReadEntry{Name: "packet field pk.NBT", Input: netIn, Run: func(r io.Reader) (string, int64, error) {
+			var v any
+			n, err := pk.NBT(&v).ReadFrom(r)
+			return mustJSON(projectAny(v)), n, err
+		}})
+		tupIn := append(append([]byte{0xac, 0x02}, nbtDocBytes("network", nil, tree)...), 0, 0, 1, 0, 7)
+		rs = append(rs, stReadEntry{Name: "packet field tuple(varint,pk.NBT,i32)", Input: tupIn, Run: func(r io.Reader) (string, int64, error) {
+			var v any
+			var a pk.VarInt
+			var b pk.Int
+			n, err := pk.Tuple{&a, pk.NBT(&v), &b}.ReadFrom(r)
+			return fmt.Sprint(a, b, mustJSON(projectAny(v))), n, err
+		}})
+		ws = append(ws, stWriteEntry{Name: "packet field pk.NBT", Run: func(w io.Writer) error { _, err := pk.NBT(gv).WriteTo(w); return err }})
 	}
 	// RCON
 	for _, sz := range []int{0, 1, 40} {
@@ -415,7 +431,7 @@ func stWriteEvent(e stWriteEntry, idx int, limit int, once bool) (stWriteEv, boo
 	fw := &failingWriter{limit: limit, once: once}
 	var err error
 	pan, _ := catch(func() { err = e.Run(fw) })
-	return stWriteEv{K: "write", Entry: e.Name, Size: size, Limit: limit, Ok: err == nil, Same: bytes.Equal(fw.buf.Bytes(), full.buf.Bytes()) || (e.Name == "nbt Encoder.Encode" && fw.n == full.n), Panicked: pan, Idx: idx, Once: once}, true
+	return stWriteEv{K: "write", Entry: e.Name, Size: size, Limit: limit, Ok: err == nil, Same: bytes.Equal(fw.buf.Bytes(), full.buf.Bytes()) || ((e.Name == "nbt Encoder.Encode" || e.Name == "packet field pk.NBT") && fw.n == full.n), Panicked: pan, Idx: idx, Once: once}, true
 }
 
 func randSegs(rng *rand.Rand, n int, mode int) []int {
